@@ -1,4 +1,5 @@
 """C14 — each file has at most one producing step."""
+import collections
 from frontcheck import *
 
 PROP = "C14"
@@ -43,8 +44,100 @@ HAND = [
 ]
 
 
+COMPS = ["a", "out", "sub", "gen", "o.txt", "b.c", "x-1", "d.e"]
+
+
+def respell(rng, prefix, comps):
+    """a canon-equivalent spelling of prefix + '/'.join(comps): './', doubled separators and 'd/..' detours"""
+    out = prefix
+    for i, c in enumerate(comps):
+        for _ in range(rng.choice([0, 0, 0, 1, 1, 2])):
+            k = rng.random()
+            if k < 0.35:
+                out += "./"
+            elif k < 0.5 and i > 0:
+                out += "/"
+            else:
+                depth = rng.choice([1, 1, 2])
+                out += "".join(rng.choice(["t", "tmp", "q.r"]) + "/" for _ in range(depth)) + "../" * depth
+        out += c + ("/" if i < len(comps) - 1 else "")
+    return out
+
+
+def spelling_suite(run, rng, har, drv, stats, n):
+    """two statements name one file by different spellings, in every file layout: rejected, citing both statements"""
+    cases, lines = [], []
+    for _ in range(n):
+        prefix = rng.choice(["", "", "", "/", "../", "../../", "/t/", "../u/"])
+        comps = [rng.choice(COMPS) for _ in range(rng.randint(1, 4))]
+        canon = prefix + "/".join(comps)
+        same = rng.random() < 0.8
+        s1 = respell(rng, prefix, comps)
+        if same:
+            s2 = respell(rng, prefix, comps)
+        else:
+            comps2 = list(comps)
+            comps2[rng.randrange(len(comps2))] += "_"
+            s2 = respell(rng, prefix, comps2)
+        ctr = itertools.count()
+        pad = lambda: "".join(rng.choice(["# c\n", "\n", "v = 1\n", "build other%d: r\n" % next(ctr)]) for _ in range(rng.randint(0, 3)))
+        head = "rule r\n  command = c\n"
+        st1 = "build %s%s: r\n" % (rng.choice(["", "first | "]), s1)
+        st2 = "build %s%s: r in\n" % (rng.choice(["", "second "]), s2)
+        kw = rng.choice(["include", "subninja"])
+        layout = rng.choice(["flat", "inc-second", "inc-first", "two-incs", "nested"])
+        files = {}
+        def line_of(text, stmt):
+            return text[:text.index(stmt)].count("\n") + 1
+        if layout == "flat":
+            top = head + pad() + st1 + pad() + st2 + pad()
+            loc1, loc2 = ("build.ninja", line_of(top, st1)), ("build.ninja", line_of(top, st2))
+        elif layout == "inc-second":
+            files["p.ninja"] = pad() + st2 + pad()
+            top = head + pad() + st1 + pad() + "%s p.ninja\n" % kw + pad()
+            loc1, loc2 = ("build.ninja", line_of(top, st1)), ("p.ninja", line_of(files["p.ninja"], st2))
+        elif layout == "inc-first":
+            files["p.ninja"] = pad() + st1 + pad()
+            top = head + pad() + "%s p.ninja\n" % kw + pad() + st2 + pad()
+            loc1, loc2 = ("p.ninja", line_of(files["p.ninja"], st1)), ("build.ninja", line_of(top, st2))
+        elif layout == "two-incs":
+            files["p.ninja"] = pad() + st1 + pad()
+            files["q.ninja"] = pad() + st2 + pad()
+            top = head + pad() + "%s p.ninja\n" % kw + pad() + "%s q.ninja\n" % rng.choice(["include", "subninja"]) + pad()
+            loc1, loc2 = ("p.ninja", line_of(files["p.ninja"], st1)), ("q.ninja", line_of(files["q.ninja"], st2))
+        else:
+            files["q.ninja"] = pad() + st1 + pad()
+            files["p.ninja"] = pad() + "%s q.ninja\n" % rng.choice(["include", "subninja"]) + pad() + "build mid: r\n"
+            top = head + pad() + "%s p.ninja\n" % kw + pad() + st2 + pad()
+            loc1, loc2 = ("q.ninja", line_of(files["q.ninja"], st1)), ("build.ninja", line_of(top, st2))
+        l = "%s %s" % (hexs(b"build.ninja"), hexs(top.encode()))
+        for fn, sub in files.items():
+            l += " %s %s" % (hexs(fn.encode()), hexs(sub.encode()))
+        lines.append(l)
+        cases.append((top, files, same, canon, loc1, loc2, layout))
+    impl = run_lines([har, "load"], lines)
+    model = run_lines([drv, "load"], ["1 " + l for l in lines])
+    stats["respelled_duplicate_cases"] = len(lines)
+    stats["respelled_layouts"] = dict(collections.Counter(c[6] for c in cases))
+    stats["respelled_distinct_controls"] = sum(1 for c in cases if not c[2])
+    for (top, files, same, canon, loc1, loc2, layout), a, m in zip(cases, impl, model):
+        where = {"manifest": top, "files": files, "result": a[:300], "layout": layout}
+        if a != m:
+            run.tie("correspondence loader (respelled duplicate-output cases)", dict(where, model=m[:300]))
+        msg = unhexs(a[4:]).decode("utf-8", "replace") if a.startswith("err ") else ""
+        if same:
+            want = '%s:%d: "%s" is already an output at %s:%d' % (loc2[0], loc2[1], canon, loc1[0], loc1[1])
+            if not a.startswith("err "):
+                run.report_failure(None, "two statements produce %r under different spellings but the manifest was accepted" % canon, where)
+            elif want not in msg:
+                run.report_failure(None, "duplicate producer of %r not reported as %r: %r" % (canon, want, msg[:200]), where)
+        elif not a.startswith("ok "):
+            run.report_failure(None, "two statements with different outputs were rejected: %r" % msg[:200], where)
+
+
 def hand_suite(run, rng, har, drv, stats):
     dedup_suite(run, rng, har, drv, stats)
+    spelling_suite(run, rng, har, drv, stats, 4000 if run.tier == 'thorough' else 400)
     lines = []
     for text, files, rej in HAND:
         l = "%s %s" % (hexs(b"build.ninja"), hexs(text.encode()))
